@@ -176,7 +176,7 @@ fn gen_rect(r: &mut Rng) -> Rect {
 fn gen_rrect(r: &mut Rng) -> RoundedRect {
     let rect = gen_rect(r);
     let m = rect.width().abs().min(rect.height().abs());
-    let mut rad = |r: &mut Rng| match r.below(4) {
+    let rad = |r: &mut Rng| match r.below(4) {
         0 => r.grid(8, 2.0).abs(),
         1 => m * r.unit(), // may exceed half the short side: clamped
         2 => -m * 0.4 * r.unit(),
@@ -348,7 +348,22 @@ fn corr(r: &mut Rng, thorough: bool, o: &mut Out) {
         o.case(18, "affine*el", cat(&[&ma, &enc_els(&els)]), enc_els(&byel), els.len() > 1, &tag);
         o.case(19, "affine*ellipse", cat(&[&ma, &mb]), ellipse_inner(&(a * Ellipse::from_affine(b))), !ident(&ma), det_tag(a));
         let rad = Ellipse::from_affine(a).radii();
-        o.case(20, "svd-radii", ma.to_vec(), vec![rad.x, rad.y], a.determinant() != 0.0, det_tag(a));
+        // Affine::svd takes the minor radius as sqrt(0.5 (s1 - s2)); another property's repair
+        // (C10-svd-minor-radius) takes (|det| / major).min(major). The model holds both (equal over the reals,
+        // theorem C12_svd_variants_agree); the output is compared with the one it exhibits.
+        let by_det = {
+            let (a_, b_, c_, d_) = (ma[0], ma[1], ma[2], ma[3]);
+            let (a2, b2, c2, d2) = (a_ * a_, b_ * b_, c_ * c_, d_ * d_);
+            let (ab, cd) = (a_ * b_, c_ * d_);
+            let s1 = a2 + b2 + c2 + d2;
+            let s2 = ((a2 - b2 + c2 - d2).powi(2) + 4.0 * (ab + cd).powi(2)).sqrt();
+            let x = (0.5 * (s1 + s2)).sqrt();
+            let y_det = if x == 0.0 { 0.0 } else { ((a_ * d_ - b_ * c_).abs() / x).min(x) };
+            let y_sqrt = (0.5 * (s1 - s2)).sqrt();
+            let same = |u: f64, v: f64| u == v || (u.is_nan() && v.is_nan());
+            same(rad.y, y_det) && !same(rad.y, y_sqrt)
+        };
+        o.case(if by_det { 66 } else { 20 }, "svd-radii", ma.to_vec(), vec![rad.x, rad.y], a.determinant() != 0.0, &format!("{},{}", det_tag(a), if by_det { "minor=|det|/major" } else { "minor=sqrt(0.5(s1-s2))" }));
         let e = Ellipse::from_affine(a);
         let mut ev = ellipse_inner(&(e + t));
         ev.extend(ellipse_inner(&(e - t)));
@@ -807,7 +822,7 @@ fn law_ellipse(a: &[f64]) -> Option<(String, String)> {
     let fro = cm[0] * cm[0] + cm[1] * cm[1] + cm[2] * cm[2] + cm[3] * cm[3];
     let det = own_det(&cm);
     let aspect2 = (rad.x / rad.y).powi(2);
-    if !(rad.x >= rad.y && rad.y >= 0.0) || (rad.x * rad.x + rad.y * rad.y - fro).abs() > 64.0 * EPS * fro || (rad.x * rad.y - det.abs()).abs() > 64.0 * EPS * fro * aspect2.sqrt().max(1.0) {
+    if !(rad.x * (1.0 + 4.0 * EPS) >= rad.y && rad.y >= 0.0) || (rad.x * rad.x + rad.y * rad.y - fro).abs() > 64.0 * EPS * fro || (rad.x * rad.y - det.abs()).abs() > 64.0 * EPS * fro * aspect2.sqrt().max(1.0) {
         return fail("ellipse:svd-invariants", format!("svd of {:?}: radii {:?}, a^2+b^2+c^2+d^2 = {}, |det| = {}", m, rad, fro, det.abs()));
     }
     if !(ang > -FRAC_PI_2 - 1e-12 && ang <= FRAC_PI_2 + 1e-12) {
@@ -846,11 +861,39 @@ fn law_ellipse(a: &[f64]) -> Option<(String, String)> {
     if (r2.x - big).abs() > 1e-9 * big || (r2.y - small).abs() > 1e-9 * big * (big / small) {
         return fail("ellipse:new-radii", format!("Ellipse::new with radii ({}, {}) reports {:?}", rx, ry, r2));
     }
+    // Ellipse +/- Vec2 and with_center move the centre and nothing else
+    let v = Vec2::new(rot * 3.0, th - 1.0);
+    let base = ellipse_inner(&e2);
+    for (name, got, cx, cy) in [("add", e2 + v, base[4] + v.x, base[5] + v.y), ("sub", e2 - v, base[4] - v.x, base[5] - v.y), ("with_center", e2.with_center(v.to_point()), v.x, v.y)] {
+        let g = ellipse_inner(&got);
+        if g[..4] != base[..4] || (g[4] - cx).abs() > 4.0 * EPS * cx.abs() || (g[5] - cy).abs() > 4.0 * EPS * cy.abs() {
+            return fail(&format!("ellipse:translate-{}", name), format!("{:?} moved by {:?} ({}) = {:?}", e2, v, name, got));
+        }
+    }
     let e3 = m * e2;
     let (r3, a3) = e3.radii_and_rotation();
     let d = on_ellipse(e3.center(), r3, a3, m * on2);
     if !(d <= etol(r3)) {
         return fail("ellipse:image", format!("A*ellipse: image point {:?} is off the ellipse (centre {:?}, radii {:?}, rotation {}) by {}", m * on2, e3.center(), r3, a3, d));
+    }
+    // the outline of the image shape: every knot, pulled back by the inverse map, lies on the original ellipse
+    let inv = m.inverse();
+    let mut knots = 0;
+    for el in e3.path_elements(0.1) {
+        if let Some(q) = el.end_point() {
+            knots += 1;
+            let back = inv * q;
+            let (u, v) = (back.x - c.x, back.y - c.y);
+            let (lu, lv) = (crot * u + srot * v, -srot * u + crot * v);
+            let d = ((lu / rx).powi(2) + (lv / ry).powi(2) - 1.0).abs();
+            let cond = (1.0 + mmax(&cm)) * (1.0 + mmax(&co(inv))) * (big / small).powi(2);
+            if !(d <= 1e-9 + 1e-12 * (r3.x / r3.y).powi(2) + 1e-13 * cond) {
+                return fail("ellipse:image-outline", format!("outline knot {:?} of A*ellipse pulls back to {:?}, off the original ellipse by {}; A={:?} ellipse: centre {:?} radii ({}, {}) rotation {}", q, back, d, m, c, rx, ry, rot));
+            }
+        }
+    }
+    if knots < 5 {
+        return fail("ellipse:image-outline", format!("outline of A*ellipse has {} knots", knots));
     }
     None
 }
@@ -991,6 +1034,14 @@ fn law_ts(a: &[f64]) -> Option<(String, String)> {
     if !near_m(&co(Affine::from(ts - ts2.translation)), &co(af.then_translate(-ts2.translation)), 0.0) {
         return fail("ts:sub-translate", format!("{:?} - {:?}", ts, ts2.translation));
     }
+    let (mut t1, mut t2, mut t3) = (ts, ts, ts);
+    t1 *= ts2;
+    t2 += ts2.translation;
+    t3 -= ts2.translation;
+    let same_ts = |x: TranslateScale, y: TranslateScale| x.translation == y.translation && x.scale == y.scale;
+    if !same_ts(t1, ts * ts2) || !same_ts(t2, ts + ts2.translation) || !same_ts(t3, ts - ts2.translation) || co(Affine::default()) != [1.0, 0.0, 0.0, 1.0, 0.0, 0.0] || !same_ts(TranslateScale::default(), TranslateScale::new(Vec2::ZERO, 1.0)) {
+        return fail("ts:assign-ops", format!("*=, +=, -= on {:?} with {:?}", ts, ts2));
+    }
     let fsa = TranslateScale::from_scale_about(s, p);
     if !near_p(fsa * p, p, 16.0 * EPS * (1.0 + s.abs()) * (1.0 + p.x.abs().max(p.y.abs()))) || !near_m(&co(Affine::from(fsa)), &co(Affine::scale_about(s, p)), 16.0 * EPS * (1.0 + s.abs()) * (1.0 + p.x.abs().max(p.y.abs()))) {
         return fail("ts:from_scale_about", format!("from_scale_about({}, {:?}) = {:?}", s, p, fsa));
@@ -1021,6 +1072,25 @@ fn law_ts(a: &[f64]) -> Option<(String, String)> {
     }
     let (q, w) = (rr.rect(), im.rect());
     let lim = w.width().min(w.height()) / 2.0;
+    // a point is in the image shape iff its pre-image is in the shape: probes in the corner squares
+    if w.width() > 0.0 && w.height() > 0.0 && s != 0.0 {
+        let rmax = [rr.radii().top_left, rr.radii().top_right, rr.radii().bottom_right, rr.radii().bottom_left].iter().fold(0.0f64, |a, b| a.max(*b));
+        let m = 1e-9 * (1.0 + q.x0.abs().max(q.x1.abs()).max(q.y0.abs()).max(q.y1.abs()));
+        for (cp, sx, sy) in [(Point::new(q.x0, q.y0), 1.0, 1.0), (Point::new(q.x1, q.y0), -1.0, 1.0), (Point::new(q.x1, q.y1), -1.0, -1.0), (Point::new(q.x0, q.y1), 1.0, -1.0)] {
+            for (fu, fv) in [(0.05, 0.05), (0.15, 0.15), (0.3, 0.1), (0.1, 0.3), (0.25, 0.25), (0.6, 0.6)] {
+                let probe = Point::new(cp.x + sx * fu * rmax, cp.y + sy * fv * rmax);
+                if let Some(want) = rr_inside(&rr, probe, m) {
+                    let got = im.contains(ts * probe);
+                    // the image of the probe must not sit on the image boundary either
+                    let im_want = rr_inside(&im, ts * probe, m * (1.0 + s.abs()) + 1e-9 * ts.translation.x.abs().max(ts.translation.y.abs()));
+                    if im_want.is_some() && got != want {
+                        let class = if s < 0.0 { "ts-rounded-rect:negative-scale" } else { "ts:rounded-rect-contains" };
+                        return fail(class, format!("{:?} * {:?}: the point {:?} is {} the shape but its image {:?} is {} the image {:?}", ts, rr, probe, if want { "inside" } else { "outside" }, ts * probe, if got { "inside" } else { "outside" }, im));
+                    }
+                }
+            }
+        }
+    }
     let corners = [(Point::new(q.x0, q.y0), rr.radii().top_left), (Point::new(q.x1, q.y0), rr.radii().top_right), (Point::new(q.x1, q.y1), rr.radii().bottom_right), (Point::new(q.x0, q.y1), rr.radii().bottom_left)];
     let got = [(Point::new(w.x0, w.y0), im.radii().top_left), (Point::new(w.x1, w.y0), im.radii().top_right), (Point::new(w.x1, w.y1), im.radii().bottom_right), (Point::new(w.x0, w.y1), im.radii().bottom_left)];
     if w.width() > 0.0 && w.height() > 0.0 {
@@ -1035,6 +1105,73 @@ fn law_ts(a: &[f64]) -> Option<(String, String)> {
                 return fail(class, format!("{:?} * {:?}: the corner {:?} (radius {}) maps to {:?}, which gets radius {} instead of {}", ts, rr, cp, cr, ip, gr, want));
             }
         }
+    }
+    None
+}
+
+/// membership in a rounded rectangle written out from its definition; `None` within `m` of the boundary
+fn rr_inside(rr: &RoundedRect, p: Point, m: f64) -> Option<bool> {
+    let q = rr.rect();
+    if p.x < q.x0 - m || p.x > q.x1 + m || p.y < q.y0 - m || p.y > q.y1 + m {
+        return Some(false);
+    }
+    if (p.x - q.x0).abs() <= m || (p.x - q.x1).abs() <= m || (p.y - q.y0).abs() <= m || (p.y - q.y1).abs() <= m {
+        return None;
+    }
+    let d = rr.radii();
+    for (cx, cy, sx, sy, r) in [(q.x0, q.y0, 1.0, 1.0, d.top_left), (q.x1, q.y0, -1.0, 1.0, d.top_right), (q.x1, q.y1, -1.0, -1.0, d.bottom_right), (q.x0, q.y1, 1.0, -1.0, d.bottom_left)] {
+        // centre of the corner circle, and the position of p relative to it, pointing towards the corner
+        let (ox, oy) = (cx + sx * r, cy + sy * r);
+        let (u, v) = ((ox - p.x) * sx, (oy - p.y) * sy);
+        if (u.abs() <= m || v.abs() <= m) && u > -m && v > -m {
+            return None;
+        }
+        if u > 0.0 && v > 0.0 {
+            let dist = (u * u + v * v).sqrt();
+            if (dist - r).abs() <= m {
+                return None;
+            }
+            return Some(dist < r);
+        }
+    }
+    Some(true)
+}
+
+fn g_rect(r: &mut Rng) -> Vec<f64> {
+    let mut v = co(gen_affine_reg(r)).to_vec();
+    v.extend(enc_rect(&gen_rect(r)));
+    v.push(r.unit());
+    v.push(r.unit());
+    v
+}
+
+/// transform_rect_bbox is the smallest rectangle containing the images of the four corners (hence of
+/// the whole rectangle); map_unit_square takes the unit square's corners to the rectangle's
+fn law_rect(a: &[f64]) -> Option<(String, String)> {
+    let m = dec_aff(&a[0..6]);
+    let rect = Rect::new(a[6], a[7], a[8], a[9]);
+    let (u, v) = (a[10], a[11]);
+    let bb = m.transform_rect_bbox(rect);
+    let cs = [m * Point::new(rect.x0, rect.y0), m * Point::new(rect.x0, rect.y1), m * Point::new(rect.x1, rect.y0), m * Point::new(rect.x1, rect.y1)];
+    let (mut x0, mut y0, mut x1, mut y1) = (f64::INFINITY, f64::INFINITY, f64::NEG_INFINITY, f64::NEG_INFINITY);
+    for c in cs {
+        x0 = x0.min(c.x);
+        y0 = y0.min(c.y);
+        x1 = x1.max(c.x);
+        y1 = y1.max(c.y);
+    }
+    if (bb.x0, bb.y0, bb.x1, bb.y1) != (x0, y0, x1, y1) {
+        return fail("rect:transform_rect_bbox", format!("{:?}.transform_rect_bbox({:?}) = {:?}, the corners' images span ({}, {}, {}, {})", m, rect, bb, x0, y0, x1, y1));
+    }
+    let inside = m * Point::new(rect.x0 + u * (rect.x1 - rect.x0), rect.y0 + v * (rect.y1 - rect.y0));
+    let tol = 16.0 * EPS * (1.0 + mmax(&co(m))) * (1.0 + rect.x0.abs().max(rect.x1.abs()).max(rect.y0.abs()).max(rect.y1.abs()));
+    if inside.x < bb.x0 - tol || inside.x > bb.x1 + tol || inside.y < bb.y0 - tol || inside.y > bb.y1 + tol {
+        return fail("rect:transform_rect_bbox-contains", format!("image {:?} of a point of {:?} lies outside {:?}", inside, rect, bb));
+    }
+    let sq = Affine::map_unit_square(rect);
+    let stol = 8.0 * EPS * (rect.x0.abs().max(rect.x1.abs()).max(rect.y0.abs()).max(rect.y1.abs()));
+    if sq * Point::new(0.0, 0.0) != Point::new(rect.x0, rect.y0) || !near_p(sq * Point::new(1.0, 1.0), Point::new(rect.x1, rect.y1), stol) || !near_p(sq * Point::new(1.0, 0.0), Point::new(rect.x1, rect.y0), stol) {
+        return fail("rect:map_unit_square", format!("map_unit_square({:?}) = {:?}", rect, sq));
     }
     None
 }
@@ -1089,6 +1226,9 @@ fn lim_arc(a: &[f64]) -> Option<(String, String)> {
 fn lim_ts(a: &[f64]) -> Option<(String, String)> {
     limited(law_ts(a))
 }
+fn lim_rect(a: &[f64]) -> Option<(String, String)> {
+    limited(law_rect(a))
+}
 fn lim_ts_path(a: &[f64]) -> Option<(String, String)> {
     limited(law_ts_path(a))
 }
@@ -1105,6 +1245,7 @@ fn laws() -> Vec<Law> {
         Law { name: "arc", gen: g_arc, check: lim_arc, weight: 3 },
         Law { name: "translate_scale", gen: g_ts, check: lim_ts, weight: 3 },
         Law { name: "translate_scale_path", gen: g_ts_path, check: lim_ts_path, weight: 1 },
+        Law { name: "rect", gen: g_rect, check: lim_rect, weight: 1 },
     ]
 }
 
